@@ -2,10 +2,14 @@
    field-value specification (Parse/Fields.v). *)
 From EP Require Import Base.Bytes Parse.Types Parse.Slices Parse.Cursor Parse.View Parse.WireSpec
   Parse.Access Parse.Fields.
+(* -- begin audit follow-up: derived / typed accessor values (Parse/Fields2.v) -- *)
+From EP Require Import Parse.Fields2.
+(* -- end audit follow-up -- *)
 From Coq Require Import Extraction ExtrOcamlBasic.
 Extraction Language OCaml.
 Extraction "m_c03f.ml"
   N.add N.mul N.of_nat
   SlicedPacket.from_ethernet SlicedPacket.from_linux_sll SlicedPacket.from_ether_type
   SlicedPacket.from_ip fields_of_packet spec_fields
+  fields2_of_packet spec_fields2
   wire_ethernet wire_linux_sll wire_ether_type wire_from_ip.
